@@ -28,6 +28,7 @@ type COp struct {
 	Same  bool   `json:"same,omitempty"` // write the constant value "same" instead of a value unique to this call
 	Exps  []bool `json:"exps,omitempty"` // putmany: per-record expiry flags (nil: Exp for all); Keys may then repeat - the last record of a key counts
 	Yield int    `json:"yield,omitempty"`
+	Short bool   `json:"short,omitempty"` // write with an expiry 1 ms ahead (wire-scheduled Redis cases only: miniredis does not age it, so the record stays in Redis with an ExpiresAt in the past - a server whose clock lags)
 }
 
 // CCase is the generated object: one program per thread. History is filled in on failure (replay unit).
@@ -53,6 +54,7 @@ type HOp struct {
 	Found    bool   `json:"found,omitempty"`    // mget: record present
 	Repeated bool   `json:"repeated,omitempty"` // mput: the key occurs more than once in this batch
 	Last     bool   `json:"last,omitempty"`     // mput: this is the last record of the key in the batch
+	Short    bool   `json:"short,omitempty"`    // the write carried an expiry 1 ms ahead
 }
 
 func firstOf(keys []string, k string) int {
@@ -124,11 +126,15 @@ func ExecuteWith(c CCase, stFor func(ti int) kvs.Storage, run func(start chan st
 					e := far
 					exp = &e
 				}
+				if op.Short {
+					e := time.Now().Add(time.Millisecond)
+					exp = &e
+				}
 				passVer := "" // what the caller leaves in Record.Version for create/put/putmany: its last seen version
 				if s := seen[key]; len(s) > 0 {
 					passVer = s[len(s)-1]
 				}
-				h := HOp{Thread: ti, Key: key}
+				h := HOp{Thread: ti, Key: key, Short: op.Short && (op.K == "create" || op.K == "put" || op.K == "cas")}
 				switch op.K {
 				case "create":
 					h.Kind, h.Val, h.Arg = "create", val, passVer
@@ -254,13 +260,27 @@ func ExecuteWith(c CCase, stFor func(ti int) kvs.Storage, run func(start chan st
 // sequential specification of one key (porcupine model)
 
 type kvState struct {
+	Zombie bool // the record was written with an expiry that has passed by now while the server still holds it: it may be there or not
 	Exists bool
 	Ver    string // "" while unknown (after a PutMany, whose result carries no version)
 	NotVer string // when Ver is unknown: the version it must differ from ("" = none)
 	Val    string
 }
 
+// stepKV: a record written with an expiry 1 ms ahead (Short) may be found or be gone at any later step - the statement
+// of C02 says nothing about records past their expiry; every other record must be there until it is deleted.
 func stepKV(st kvState, h HOp) (bool, kvState) {
+	ok, ns := stepKV0(st, h)
+	if !ok && st.Zombie {
+		ok, ns = stepKV0(kvState{}, h)
+	}
+	if ok && ns.Exists && isWrite(h.Kind) && h.Err == "" && h.Kind != "delete" {
+		ns.Zombie = h.Short
+	}
+	return ok, ns
+}
+
+func stepKV0(st kvState, h HOp) (bool, kvState) {
 	bind := func(ver string) (bool, kvState) { // a read observed version ver
 		if ver == "" {
 			return false, st
